@@ -554,7 +554,7 @@ class NetworkGraph(AbstractBaseIR):
                 rate_val = rates[slot_indices[0]]
 
                 # Build chain input: use source var directly when group covers all its elements
-                if sorted(src_indices) == list(range(n_src_var)):
+                if src_indices == list(range(n_src_var)):
                     chain_in = var
                 elif G == 1:
                     chain_in = f"index({var}, {src_indices[0]})"
